@@ -11,7 +11,7 @@ def Label.proper (l : Label) : Bool := !l.spurious && !l.isEnv
 def CanMove (s : St) : Prop := ∃ l, l.proper = true ∧ (step s l).isSome = true
 
 theorem w_enabled {s : St} {i : Nat} {a : WAct} {p q : WP} (hx : s.exited = none) (hp : s.ws[i]? = some p)
-    (hn : wNext a p (tsAt s i == .canceled) = some q) (hT : a = .lockT → s.thd = .none)
+    (hn : wNext s.g a p (tsAt s i == .canceled) = some q) (hT : a = .lockT → s.thd = .none)
     (hO : a = .lock → s.own = .none) : CanMove s := by
   refine ⟨.w i a, by simp [Label.proper, Label.spurious, Label.isEnv], ?_⟩
   rw [step_of_w hx]
@@ -58,6 +58,7 @@ theorem thd_holder_moves {s : St} (h : Inv s) (hx : s.exited = none) (hthd : s.t
     have hh := (h.m.thdW k).mp ho
     cases hp : pc s k <;> rw [hp] at hh <;> simp [holdsT] at hh
     · exact w_enabled (a := .unlockT) hx (getElem?_of_getD' hp (by simp)) (by simp [wNext]; rfl) (by simp) (by simp)
+    · exact w_enabled (a := .unlockT) hx (getElem?_of_getD' hp (by simp)) (by simp [wNext]; rfl) (by simp) (by simp)
     · exact w_enabled (a := .time) hx (getElem?_of_getD' hp (by simp)) (by simp [wNext]; rfl) (by simp) (by simp)
     · exact w_enabled (a := .unlockT) hx (getElem?_of_getD' hp (by simp)) (by simp [wNext]; rfl) (by simp) (by simp)
     · exact w_enabled (a := .unlockT) hx (getElem?_of_getD' hp (by simp)) (by simp [wNext]; rfl) (by simp) (by simp)
@@ -95,7 +96,7 @@ theorem own_holder_moves {s : St} (h : Inv s) (hx : s.exited = none) (hown : s.o
 theorem worker_can_move {s : St} (h : Inv s) (hx : s.exited = none) (hnd : s.own ≠ .d) (hnc : s.spc ≠ .cancelled)
     (hex : ∃ j, counted (pc s j) = true ∨ holdsW (pc s j) = true) : CanMove s := by
   obtain ⟨j, hj⟩ := hex
-  have needT : ∀ {a : WAct} {p q : WP}, s.ws[j]? = some p → wNext a p (tsAt s j == .canceled) = some q →
+  have needT : ∀ {a : WAct} {p q : WP}, s.ws[j]? = some p → wNext s.g a p (tsAt s j == .canceled) = some q →
       a ≠ .lock → CanMove s := by
     intro a p q hp hn hne
     by_cases ht : s.thd = .none
@@ -103,6 +104,7 @@ theorem worker_can_move {s : St} (h : Inv s) (hx : s.exited = none) (hnd : s.own
     · exact thd_holder_moves h hx ht hnc
   cases hp : pc s j <;> rw [hp] at hj <;> simp [counted, holdsW] at hj
   · exact needT (a := .lockT) (getElem?_of_getD' hp (by simp)) (by simp [wNext]; rfl) (by simp)
+  · exact needT (a := .unlockT) (getElem?_of_getD' hp (by simp)) (by simp [wNext]; rfl) (by simp)
   · exact needT (a := .unlockT) (getElem?_of_getD' hp (by simp)) (by simp [wNext]; rfl) (by simp)
   · exact needT (a := .connectBegin) (getElem?_of_getD' hp (by simp)) (by simp [wNext]; rfl) (by simp)
   · exact needT (a := .connectEnd true) (getElem?_of_getD' hp (by simp)) (by simp [wNext]; rfl) (by simp)
